@@ -111,9 +111,9 @@ def cases_for(pid, tier, seed):
     if pid == "C07":
         bu = gen.boundary_universe()
         gpts = [gen.q(-1), gen.q(0), gen.q(1, 2), gen.q(1), gen.q(2)] if quick else gen.GT
-        for t in bu:
+        for n_, t in enumerate(bu):
             add(t, pts=gen.grid(J.variables(t), gpts))
-            if J.size(t) <= 9:
+            if J.size(t) <= 9 and (not quick or n_ % 4 == 0):
                 cases[-1]["early"] = True
         for t in rnd.sample(bu, 200 if quick else 1500) + [J.BUn("Logarithm", J.Add(gen.X, gen.C[2]), gen.E_), J.Un("Reciprocal", J.Add(gen.X, gen.C[2]))]:
             collide(t)
